@@ -84,6 +84,10 @@ CLAIMED = {
    technique="preemption-bounded exhaustive schedule exploration (CHESS-style, P<=2 quick / 3 thorough) of the real reader/verifier/mobile/cert-pool code under a cooperative scheduler with a sync shim and statement-level yield points injected by a build overlay; sequential-equivalence oracle by brute force over all call orders; plus a separate free-running -race pass",
    text="Six scenarios (shared reader.Reader, shared verifier.Verifier, shared mobile.Reader, readers+verifier on one certificate pool, PreloadCscaCertPool x3 + Verify, same with a failing loader) with 2-3 logical threads on fresh objects per execution; every schedule with at most 2 preemptions (3 in thorough) at sync granularity and at statement granularity is executed on instrumented copies of the CURRENT sources; each call's result must equal its result in some sequential order of whole calls, the built-in trust store loaders must run exactly once, no deadlock. The same bodies run free on real goroutines under the race detector (200 iterations per scenario).",
    note="scheduling points are statement boundaries and sync operations of the instrumented packages (reader, verifier, mobile, cms cert pools); the race pass is dynamic detection, not enumeration; a sync type the shim lacks makes the build fail as a harness error"),
+ "C12": dict(level="exploration", ref="§4 C12",
+   technique="bounded-exhaustive input enumeration at ~50 entry points: all byte strings <=3 (and <=5 over a structural alphabet), every position x every byte value / truncation / extension of every genuine seed incl. onward pipelines, an adversarial grammar (nesting, sibling counts, lying lengths, indefinite markers, end-of-contents, malformed OIDs in every slot, evidence bundles with absent/oversize fields, documents lacking referenced files, signature range classes); oracles: no panic, allocation bound, CPU horizon",
+   text="Every listed public entry point (TLV/APDU decoding, every LDS constructor, CMS parsing and verification, MRZ, SM decode, evidence verification, CBOR import, both offline verifiers, summaries) is driven with 3.8e8 inputs in the quick tier; a panic, an allocation above 256 KiB + 4000 x input (+64 MiB for public-key operations) or a call above the 20 s horizon is a violation keyed by entry point and root-cause frame. Length claims are sent smallest first so an over-allocation regression is reported, not an OOM.",
+   note="the asymptotic 'small polynomial' clause is not decided (an enumeration can exhibit a blow-up, not prove a bound); inputs above 64 KiB, htmlreport and cmd/ are out of scope; workers run under ulimit -v"),
 }
 PENDING_REASON = "check still being built (DESIGN.md §4); no claim is made until its machinery exists and is green on the unchanged tree"
 
